@@ -5,6 +5,7 @@ import (
 	"encoding/binary"
 	"encoding/json"
 	"fmt"
+	"sort"
 	"strings"
 	"testing/fstest"
 	"time"
@@ -18,8 +19,8 @@ import (
 )
 
 type storeOp struct {
-	K     string `json:"k"`   // W plain write, S signed update, G read
-	Var   string `json:"var"` // PK KEK db dbx OrdA OrdB
+	K     string `json:"k"`   // W plain write, S signed update, G read, P two overlapping plain writes (see Var2)
+	Var   string `json:"var"` // PK KEK db dbx OrdA OrdB Ord0, or the name of any other package-level definition of efivar (SetupMode, SecureBoot, PKDefault, BootOrder, LoaderEntries, ...)
 	Value string `json:"value,omitempty"`
 	Key   int    `json:"key,omitempty"`
 	// how the caller describes the variable: "" the package-level efivar definition (or, for the ordinary variables,
@@ -34,7 +35,59 @@ type storeOp struct {
 	// more (the update is applied again after something else was written); without one it does nothing ("skip").
 	How  string `json:"how,omitempty"`
 	Prep int    `json:"prep,omitempty"`
+	// P only - two plain writes through the ONE store that overlap in time: WriteVar(Var, value object of Value) is
+	// called, and while the store is marshalling that value object (the object's Marshal parks: Prep = 0 after it wrote
+	// its bytes, 1 before, 2 half way) another goroutine runs a complete WriteVar(Var2, Value2) through the same store;
+	// then the first call goes on.  The hand-over is by channels: at any time one of the two goroutines runs.
+	Var2   string `json:"var2,omitempty"`
+	Value2 string `json:"value2,omitempty"`
 }
+
+// wellKnownVars are the package-level variable definitions of efivar beside PK / KEK / db / dbx (Boot#### is a pattern,
+// not a variable).  For the store they are variables like any other: registers.
+var wellKnownVars = map[string]efivar.Efivar{}
+
+func init() {
+	for _, v := range []efivar.Efivar{efivar.SecureBoot, efivar.SetupMode, efivar.PKDefault, efivar.KEKDefault, efivar.DbDefault, efivar.DbxDefault,
+		efivar.BootCurrent, efivar.BootNext, efivar.BootOrder, efivar.LoaderTimeInitUSec, efivar.LoaderTimeExecUSec, efivar.LoaderDevicePartUUID,
+		efivar.LoaderConfigTimeout, efivar.LoaderConfigTimeoutOneShot, efivar.LoaderEntries, efivar.LoaderEntryDefault, efivar.LoaderEntryOneShot,
+		efivar.LoaderEntrySelected, efivar.LoaderFeatures, efivar.LoaderSystemToken} {
+		wellKnownVars[v.Name] = v
+	}
+}
+
+func wellKnownNames() []string {
+	var ns []string
+	for n := range wellKnownVars {
+		ns = append(ns, n)
+	}
+	sort.Strings(ns)
+	return ns
+}
+
+// parkValue is a caller's value object whose Marshal hands control to another goroutine at a given point of its work
+// (a value that is produced by something that takes time: read from a file, a token, a channel)
+type parkValue struct {
+	b    []byte
+	at   int // 0 park after the bytes were written, 1 before, 2 half way
+	park func()
+}
+
+func (p *parkValue) Marshal(buf *bytes.Buffer) {
+	switch p.at {
+	case 1:
+		p.park()
+		buf.Write(p.b)
+	case 2:
+		buf.Write(p.b[:len(p.b)/2])
+		p.park()
+		buf.Write(p.b[len(p.b)/2:])
+	default:
+		buf.Write(p.b)
+		p.park()
+	}
+}
+func (p *parkValue) Bytes() []byte { return p.b }
 
 // the same variable as storeVar(name), described by a value the caller built
 func storeVarDesc(name, desc string) efivar.Efivar {
@@ -63,6 +116,9 @@ func storeVar(name string) efivar.Efivar {
 		return efivar.Db
 	case "dbx":
 		return efivar.Dbx
+	}
+	if v, ok := wellKnownVars[name]; ok {
+		return v
 	}
 	g := ordGUID
 	if name == "Ord0" { // an ordinary variable declared without attributes (the zero value of Efivar.Attributes)
@@ -113,6 +169,17 @@ func storeRead(fs *efivarfs.Efivarfs, name, desc string) string {
 	var pv probeValue
 	if err := fs.GetVar(storeVarDesc(name, desc), &pv); err != nil {
 		return "err"
+	}
+	if name == "SetupMode" || name == "SecureBoot" {
+		// the typed getter reads the same register: true iff the value's first byte is 1, an error for the empty value
+		get := fs.GetSetupMode
+		if name == "SecureBoot" {
+			get = fs.GetSecureBoot
+		}
+		b, err := get()
+		if (err != nil) != (len(pv.got) == 0) || (err == nil && b != (pv.got[0] == 1)) {
+			return fmt.Sprintf("typed-getter-disagrees: Get%s() = %v, %v while the variable holds %s", name, b, err, hx(pv.got))
+		}
 	}
 	return "ok " + hx(pv.got)
 }
@@ -210,6 +277,52 @@ func init() {
 				} else {
 					out = append(out, "skip")
 				}
+			case "P":
+				v2 := storeVar(op.Var2)
+				mB := rawValue(unhx(op.Value2))
+				reached, resume, done := make(chan struct{}), make(chan struct{}, 64), make(chan struct{})
+				var errB error
+				nB := 0
+				go func() {
+					defer close(done)
+					for range reached {
+						// the other caller: one complete write of the other variable through the same store
+						if e := fs.WriteVar(v2, mB); e != nil && errB == nil {
+							errB = e
+						}
+						nB++
+						resume <- struct{}{}
+					}
+				}()
+				serialised := false
+				mA := &parkValue{b: unhx(op.Value), at: op.Prep}
+				mA.park = func() {
+					if serialised {
+						return
+					}
+					reached <- struct{}{}
+					select {
+					case <-resume:
+					case <-time.After(3 * time.Second):
+						// a store that lets one write in at a time has made the other caller wait: the two calls then
+						// simply run one after the other
+						serialised = true
+					}
+				}
+				errA := fs.WriteVar(v, mA)
+				close(reached)
+				<-done
+				if nB == 0 {
+					// the store never asked the value object for its bytes: the other write is still made
+					errB = fs.WriteVar(v2, mB)
+				}
+				wrote(i, v2, mB, errB)
+				wrote(i, v, rawValue(unhx(op.Value)), errA)
+				if errA == nil && errB == nil {
+					out = append(out, "ok")
+				} else {
+					out = append(out, fmt.Sprintf("overlapped:%s+%s", errCls(errA), errCls(errB)))
+				}
 			case "G":
 				out = append(out, storeRead(fs, op.Var, op.Desc))
 				hv := &holdValue{}
@@ -284,9 +397,28 @@ func c12Eval(c *Ctx, cs Case) {
 	// the payload.  wroteAt[var] is the index of that write, blobOf[index] what the reads after it returned.
 	wroteAt := map[string]int{}
 	blobOf := map[int]string{}
+	// variables whose most recent write was one of two overlapping writes (operation P): which operation, and how it
+	// overlapped (for the report)
+	overlapAt := map[string]string{}
 	for i, op := range ops {
 		if i >= len(outs) {
 			break
+		}
+		if op.K == "P" {
+			// two writes through one store that overlap in time, to two variables: each variable holds the value of the
+			// write that was made to it, as if each call had run alone
+			want = append(want, "ok")
+			if outs[i] != "ok" {
+				fail(fmt.Sprintf("op %d: WriteVar(%s) overlapping with a complete WriteVar(%s) through the same store: a write to the in-memory store failed", i, op.Var, op.Var2), outs[i], "ok", "")
+				continue
+			}
+			how := fmt.Sprintf("op %d, where WriteVar(%s) was parked %s while another goroutine ran a complete WriteVar(%s) through the same store", i, op.Var,
+				map[int]string{0: "in its value object's Marshal after the bytes were written", 1: "in its value object's Marshal before the bytes were written", 2: "in its value object's Marshal half way through the bytes"}[op.Prep], op.Var2)
+			last[op.Var2], last[op.Var] = op.Value2, op.Value
+			delete(wroteAt, op.Var2)
+			delete(wroteAt, op.Var)
+			overlapAt[op.Var2], overlapAt[op.Var] = how, how
+			continue
 		}
 		if op.K == "A" {
 			// the kept signed update written again: a write of that payload
@@ -305,6 +437,7 @@ func c12Eval(c *Ctx, cs Case) {
 			if outs[i] == "ok" {
 				last[op.Var] = op.Value
 				delete(wroteAt, op.Var)
+				delete(overlapAt, op.Var)
 				if op.K == "S" && !isSecureBootVar(op.Var) {
 					wroteAt[op.Var] = i
 				}
@@ -355,7 +488,12 @@ func c12Eval(c *Ctx, cs Case) {
 				if isSecureBootVar(op.Var) || true {
 					m = "c12.stale_tail"
 				}
-				fail(fmt.Sprintf("op %d: reading %s does not return the value of the most recent write", i, op.Var), outs[i], w, m)
+				what := fmt.Sprintf("op %d: reading %s does not return the value of the most recent write", i, op.Var)
+				if how, ov := overlapAt[op.Var]; ov {
+					what += " (made by " + how + "; each of two overlapping writes to different variables must store what it stores alone)"
+					m = ""
+				}
+				fail(what, outs[i], w, m)
 			}
 		}
 	}
@@ -391,6 +529,19 @@ func c12Eval(c *Ctx, cs Case) {
 		}
 		if i < len(outs) {
 			tieOuts = append(tieOuts, outs[i])
+		}
+		if op.K == "P" {
+			// for the model two overlapping writes to two variables are the two writes, in either order
+			if i < len(outs) {
+				tieOuts = append(tieOuts, outs[i])
+			}
+			for _, w := range [][2]string{{op.Var2, op.Value2}, {op.Var, op.Value}} {
+				if w[1] == "" {
+					w[1] = "-"
+				}
+				enc = append(enc, "W,"+w[0]+","+w[1])
+			}
+			continue
 		}
 		if op.K == "S" && !isSecureBootVar(op.Var) {
 			// for the model, a signed update of an ordinary variable is a plain write of the signed update's bytes (as
@@ -476,9 +627,15 @@ func c12Gen(c *Ctx) {
 	}
 	c.Note("values_with_a_same_length_sibling", len(sibling)/2)
 	vars := []string{"PK", "KEK", "db", "dbx", "OrdA", "OrdB", "Ord0"}
-	nSame, nPrepared, nAgain, nOrdSigned := 0, 0, 0, 0
+	// the other package-level definitions of efivar (SetupMode, SecureBoot, the *Default databases, BootOrder, Loader*,
+	// ...): for the store they are registers like any other variable.  Their values: the raw values, and the one-byte
+	// values 0 / 1 the mode variables hold on hardware
+	wk := wellKnownNames()
+	wkVals := append([]string{"00", "01"}, raws...)
+	pair("00", "01")
+	nSame, nPrepared, nAgain, nOrdSigned, nWellKnown, nOverlap, nSweep := 0, 0, 0, 0, 0, 0, 0
 	defer func() {
-		c.Note("operations_generated", fmt.Sprintf("read/same-length-write/read triples %d; signed updates made by the caller itself and kept %d; kept updates written again %d; signed updates of ordinary variables %d", nSame, nPrepared, nAgain, nOrdSigned))
+		c.Note("operations_generated", fmt.Sprintf("read/same-length-write/read triples %d; signed updates made by the caller itself and kept %d; kept updates written again %d; signed updates of ordinary variables %d; operations on the other well-known variables (%d definitions) %d; pairs of overlapping writes through one store %d; histories that end with a read of every variable %d", nSame, nPrepared, nAgain, nOrdSigned, len(wk), nWellKnown, nOverlap, nSweep))
 	}()
 	for i := 0; i < c.N(150, 10000) && c.NFailures() < 6; i++ {
 		n := 2 + c.Rng.Intn(c.P(9, 29))
@@ -489,6 +646,16 @@ func c12Gen(c *Ctx) {
 			if c.Rng.Intn(2) == 0 {
 				pre["OrdA"] = raws[c.Rng.Intn(len(raws))]
 			}
+		}
+		// the well-known variables this history also uses: SetupMode or SecureBoot and one other definition; in one
+		// history out of three a store pre-populated with one of them (as With(efitest.SetUpModeOn()) does)
+		histWk := []string{[]string{"SetupMode", "SecureBoot"}[c.Rng.Intn(2)], wk[c.Rng.Intn(len(wk))]}
+		if c.Rng.Intn(3) == 0 {
+			pre[histWk[c.Rng.Intn(2)]] = wkVals[c.Rng.Intn(len(wkVals))]
+		}
+		universe := append(append([]string{}, vars...), "SetupMode", "SecureBoot")
+		if histWk[1] != "SetupMode" && histWk[1] != "SecureBoot" {
+			universe = append(universe, histWk[1])
 		}
 		lastVal := map[string]string{} // what the generator last wrote to each variable
 		for k, v := range pre {
@@ -505,10 +672,22 @@ func c12Gen(c *Ctx) {
 					v = "db"
 				}
 			}
-			val := raws[c.Rng.Intn(len(raws))]
-			if isSecureBootVar(v) {
-				val = dbs[c.Rng.Intn(len(dbs))]
+			// one operation in four (of the histories that do not stay on the ordinary variables) is on one of the
+			// history's well-known variables: written and read around the writes of PK / KEK / db / dbx
+			if i%5 != 4 && c.Rng.Intn(4) == 0 {
+				v = histWk[c.Rng.Intn(2)]
+				nWellKnown++
 			}
+			valOf := func(v string) string {
+				if isSecureBootVar(v) {
+					return dbs[c.Rng.Intn(len(dbs))]
+				}
+				if _, ok := wellKnownVars[v]; ok {
+					return wkVals[c.Rng.Intn(len(wkVals))]
+				}
+				return raws[c.Rng.Intn(len(raws))]
+			}
+			val := valOf(v)
 			// one time in four the new value is a different value of exactly the length of the one the variable holds, and
 			// the variable is read before and after the write
 			sameLen := false
@@ -536,6 +715,21 @@ func c12Gen(c *Ctx) {
 			case k < 7 && kept[v]: // the kept signed update of this variable is written again
 				op = map[string]interface{}{"k": "A", "var": v}
 				nAgain++
+			case k < 8 && i%2 == 1:
+				// two callers use the one store at once: this write's value object parks in Marshal (after / before / half
+				// way through its bytes) until another goroutine has run a complete write of ANOTHER variable of the
+				// history through the same store; both variables are read afterwards
+				v2 := universe[c.Rng.Intn(len(universe))]
+				for v2 == v {
+					v2 = universe[c.Rng.Intn(len(universe))]
+				}
+				val2 := valOf(v2)
+				op = map[string]interface{}{"k": "P", "var": v, "value": val, "var2": v2, "value2": val2}
+				if at := c.Rng.Intn(3); at != 0 {
+					op["prep"] = at
+				}
+				lastVal[v], lastVal[v2] = val, val2
+				nOverlap++
 			default:
 				op = map[string]interface{}{"k": "G", "var": v}
 			}
@@ -561,6 +755,9 @@ func c12Gen(c *Ctx) {
 			if sameLen && (op["k"] == "W" || op["k"] == "S") {
 				ops = append(ops, map[string]interface{}{"k": "G", "var": v})
 			}
+			if op["k"] == "P" {
+				ops = append(ops, map[string]interface{}{"k": "G", "var": v}, map[string]interface{}{"k": "G", "var": op["var2"]})
+			}
 			if op["how"] == "prepared" && c.Rng.Intn(2) == 0 {
 				// ... and applies it again after another value was written in between (or at once): the variable then holds
 				// the update's payload again
@@ -576,6 +773,15 @@ func c12Gen(c *Ctx) {
 				delete(lastVal, v)
 			}
 		}
+		// a write to one variable changes no other: two histories out of three end with a read of every variable of the
+		// history's universe (the seven above, SetupMode, SecureBoot, the history's other well-known variable), written
+		// or not - a variable that was never written must still not exist
+		if i%3 != 0 {
+			for _, v := range universe {
+				ops = append(ops, map[string]interface{}{"k": "G", "var": v})
+			}
+			nSweep++
+		}
 		cs := Case{"op": "store-history", "pre": pre, "ops": ops}
 		if len(pre) == 0 && i%4 == 1 {
 			cs["direct"] = int64(1) // efivarfs.Open(testfs.NewTestFS()) instead of NewTestFS().Open()
@@ -586,7 +792,7 @@ func c12Gen(c *Ctx) {
 
 func init() {
 	register("C12", &PropDef{
-		Rule:   "histories of 2..10 (thorough ..30) operations over {PK, KEK, db, dbx, two ordinary variables, one ordinary variable declared with attribute mask 0}: plain writes, signed updates (RSA-2048) and reads, each operation describing its variable either with the package-level efivar definition or (in two histories out of three, mixed within the history) with a caller-built Efivar value of equal name, GUID (util.StringToGUID of the canonical text, or a copy of the GUID value) and attributes, reads then going through GetVar with that description; values that grow, shrink (to the empty database / empty value) and repeat (7 databases from empty to two lists with certificates and list types the decoder does not handle, 5 raw values from 0 to 300 bytes), and values that repeat in LENGTH but not in content (for every non-empty value a second one of exactly the same length; one write in four of a variable that holds such a value writes its same-length sibling and the variable is read immediately before and after: read / write of a different value of the same length / read on one store); signed updates are made either by Efivarfs.WriteSignedUpdate or (every second one) by the caller itself with signature.SignEFIVariable, whose returned value object is marshalled 0..2 times (Marshal and Bytes, as when it is saved or measured) before it is handed to WriteVar and is KEPT: in half of these histories the kept object is handed to WriteVar again (operation A), at once or after another value was written to the variable, and the variable must then hold the update's payload again; one signed update in about five goes to an ORDINARY variable, for which nothing is removed: a read must return an authentication descriptor (by extent) followed by exactly the payload, the same bytes on every read until the next write; empty and pre-populated stores (With(...)); run in a worker process because a write may end the process on an unrepaired tree. Every read is compared with the register oracle and the Lean store model. Held results: every read operation also reads the variable through the same store with a caller-supplied Unmarshallable that keeps the bytes it is handed (no copy); the held value must be the value of the most recent write when the read returns and must still be that value after every later operation of the history (reads and writes of other variables, and of the same variable after a new write). Non-trivial: at least two operations; distinct = distinct histories.",
+		Rule:   "histories of 2..10 (thorough ..30) generated operations (plus the reads added after them) over {PK, KEK, db, dbx, two ordinary variables, one ordinary variable declared with attribute mask 0, and the other well-known variables of package efivar}: plain writes, signed updates (RSA-2048) and reads, each operation describing its variable either with the package-level efivar definition or (in two histories out of three, mixed within the history) with a caller-built Efivar value of equal name, GUID (util.StringToGUID of the canonical text, or a copy of the GUID value) and attributes, reads then going through GetVar with that description; values that grow, shrink (to the empty database / empty value) and repeat (7 databases from empty to two lists with certificates and list types the decoder does not handle, 5 raw values from 0 to 300 bytes), and values that repeat in LENGTH but not in content (for every non-empty value a second one of exactly the same length; one write in four of a variable that holds such a value writes its same-length sibling and the variable is read immediately before and after: read / write of a different value of the same length / read on one store); signed updates are made either by Efivarfs.WriteSignedUpdate or (every second one) by the caller itself with signature.SignEFIVariable, whose returned value object is marshalled 0..2 times (Marshal and Bytes, as when it is saved or measured) before it is handed to WriteVar and is KEPT: in half of these histories the kept object is handed to WriteVar again (operation A), at once or after another value was written to the variable, and the variable must then hold the update's payload again; one signed update in about five goes to an ORDINARY variable, for which nothing is removed: a read must return an authentication descriptor (by extent) followed by exactly the payload, the same bytes on every read until the next write; the OTHER package-level variable definitions of efivar (SetupMode, SecureBoot, PKDefault / KEKDefault / dbDefault / dbxDefault, BootOrder / BootNext / BootCurrent, the eleven Loader* variables) are variables of the histories too: every history picks SetupMode or SecureBoot and one other definition, about one operation in four writes (plain or signed), reads or overlaps one of them around the writes of PK / KEK / db / dbx (values: the raw values and the one-byte values 0 / 1), one history in three starts from a store pre-populated with one of them, SetupMode / SecureBoot are also read through GetSetupMode / GetSecureBoot (true iff the first byte of the last value written is 1), and two histories out of three END WITH A READ OF EVERY VARIABLE of the history's universe (the seven above, SetupMode, SecureBoot, the history's other definition), written or not: a write to one variable changes no other variable and creates no other variable; OVERLAPPING WRITES (operation P, every second history): WriteVar of a variable is called with a value object whose Marshal parks - after, before or half way through writing its bytes - until another goroutine has run a complete WriteVar of ANOTHER variable of the history through the SAME store, then goes on (hand-over by channels, one goroutine runs at a time, deterministic); both variables are read afterwards and each must hold the value written to it, as when each call runs alone (for the Lean model the operation is the two writes); empty and pre-populated stores (With(...)); run in a worker process because a write may end the process on an unrepaired tree. Every read is compared with the register oracle and the Lean store model. Held results: every read operation also reads the variable through the same store with a caller-supplied Unmarshallable that keeps the bytes it is handed (no copy); the held value must be the value of the most recent write when the read returns and must still be that value after every later operation of the history (reads and writes of other variables, and of the same variable after a new write). Non-trivial: at least two operations; distinct = distinct histories.",
 		Assume: []string{"variables without the APPEND_WRITE attribute (the property's register semantics)", "values of secure-boot variables are well-formed signature databases (any list type of ValidEFISignatureSchemes, including types the decoder does not handle; those are compared as bytes)"},
 		Eval:   c12Eval, Gen: c12Gen,
 	})
